@@ -48,7 +48,7 @@ CreatedClean == [][(~lay.tree /\ lay'.tree) => ~lay'.dirty]_vars
 \* (UpgradeShared may have converted the shared repository before one of its branches refuses,
 \* and to_checkout without a bind location leaves the working tree it has already created)
 RefusalIsNoop == [][(last' \in {"already", "refused", "diverges"}) =>
-                       \/ [lay' EXCEPT !.sfmt = lay.sfmt] = lay
+                       \/ [lay' EXCEPT !.sfmt = lay.sfmt, !.pure = lay.pure] = lay
                        \/ (~lay.km /\ ~lay.tree /\ lay' = [lay EXCEPT !.tree = TRUE, !.pure = FALSE])]_vars
 \* pending changes are never silently dropped: a dirty tree is only ever kept
 NeverDropsPending == [][lay.dirty => lay'.dirty]_vars
